@@ -439,7 +439,13 @@ pub fn run_batch<E: Engine>(engine: &E, cfg: &BatchCfg) -> BatchReport {
         // deterministic, or the code under test keeps state from one operation to the next. The
         // two are told apart in a fresh process, which executes that one scenario twice.
         if let Some(sig) = engine.repeat_signature() {
-            for &run in a.det_mismatch.iter().take(8) {
+            // candidates: the runs that differed, and the earliest runs in which the batch saw a
+            // violation (the operation that leaves the state behind is often one of those, while
+            // the runs that differ are merely the ones that met it)
+            a.found.sort_by_key(|f| f.run);
+            let mut cands: Vec<u64> = a.det_mismatch.iter().take(8).copied().collect();
+            cands.extend(a.found.iter().take(8).map(|f| f.run));
+            for run in cands {
                 let fault_free = cfg.fault_free_every > 0 && run % cfg.fault_free_every == cfg.fault_free_every - 1;
                 let mut rng = Rng::new(cfg.seed, engine.stream(), run);
                 let sc = engine.generate(&mut rng, fault_free);
